@@ -78,6 +78,15 @@ static const echs_wday_t __jan01_28y_wday[] = {
 #undef A
 #undef S
 
+/* The subtractive fillers (hourly and finer) step through candidates until
+ * enough of them match.  In the calendar used here (leap years every 4th year)
+ * dates, weekdays and times of day repeat every 28 years, and stepping by
+ * INTERVAL visits every residue it will ever visit within that many units, so
+ * a rule that has found nothing after 28 years' worth of steps never will. */
+#define HLY_TRIES	(28UL * 1461UL / 4UL * 24UL)
+#define MLY_TRIES	(HLY_TRIES * 60UL)
+#define SLY_TRIES	(MLY_TRIES * 60UL)
+
 /* we can enumerate the cross product of time components */
 struct enum_s {
 	size_t nel;
@@ -1681,6 +1690,8 @@ rrul_fill_Hly(echs_instant_t *restrict tgt, size_t nti, rrulsp_t rr)
 	unsigned int d = proto.d;
 	unsigned int H = proto.H;
 	size_t res = 0UL;
+	/* fruitless steps in a row */
+	size_t tries = 0UL;
 	uint8_t wd_mask = 0U;
 	unsigned int m_mask = 0U;
 	uint_fast32_t posd_mask = 0U;
@@ -1776,7 +1787,7 @@ rrul_fill_Hly(echs_instant_t *restrict tgt, size_t nti, rrulsp_t rr)
 	/* fill up the array the naive way */
 	for (unsigned int w = ymd_get_wday(y, m, d), yd = ymd_get_yd(y, m, d),
 		     maxd = __get_ndom(y, m), maxy = (y % 4U) ? 365 : 366;
-	     res < nti;
+	     res < nti && y < 4095U && ++tries <= HLY_TRIES;
 	     ({
 		     if ((H += rr->inter) >= 24U) {
 			     d += H / 24U, w += H / 24U, yd += H / 24U;
@@ -1847,6 +1858,7 @@ rrul_fill_Hly(echs_instant_t *restrict tgt, size_t nti, rrulsp_t rr)
 				/* cache is full, the rest comes with the next refill */
 				goto fin;
 			}
+			tries = 0UL;
 			tgt[res++] = x;
 		}
 	}
@@ -1864,6 +1876,8 @@ rrul_fill_Mly(echs_instant_t *restrict tgt, size_t nti, rrulsp_t rr)
 	unsigned int H = proto.H;
 	unsigned int M = proto.M;
 	size_t res = 0UL;
+	/* fruitless steps in a row */
+	size_t tries = 0UL;
 	uint8_t wd_mask = 0U;
 	unsigned int m_mask = 0U;
 	uint_fast32_t posd_mask = 0U;
@@ -1973,7 +1987,7 @@ rrul_fill_Mly(echs_instant_t *restrict tgt, size_t nti, rrulsp_t rr)
 
 	/* fill up the array the naive way */
 	for (unsigned int w = ymd_get_wday(y, m, d), maxd = __get_ndom(y, m);
-	     res < nti;
+	     res < nti && y < 4095U && ++tries <= MLY_TRIES;
 	     ({
 		     if ((M += rr->inter) >= 60U) {
 			     H += M / 60U, M %= 60U;
@@ -2033,6 +2047,7 @@ rrul_fill_Mly(echs_instant_t *restrict tgt, size_t nti, rrulsp_t rr)
 				/* cache is full, the rest comes with the next refill */
 				goto fin;
 			}
+			tries = 0UL;
 			tgt[res++] = x;
 		}
 	}
@@ -2051,6 +2066,8 @@ rrul_fill_Sly(echs_instant_t *restrict tgt, size_t nti, rrulsp_t rr)
 	unsigned int M = proto.M;
 	unsigned int S = proto.S;
 	size_t res = 0UL;
+	/* fruitless steps in a row */
+	size_t tries = 0UL;
 	uint8_t wd_mask = 0U;
 	unsigned int m_mask = 0U;
 	uint_fast32_t posd_mask = 0U;
@@ -2171,7 +2188,7 @@ rrul_fill_Sly(echs_instant_t *restrict tgt, size_t nti, rrulsp_t rr)
 
 	/* fill up the array the naive way */
 	for (unsigned int w = ymd_get_wday(y, m, d), maxd = __get_ndom(y, m);
-	     res < nti;
+	     res < nti && y < 4095U && ++tries <= SLY_TRIES;
 	     ({
 		     if ((S += rr->inter) >= 60U) {
 			     M += S / 60U, S %= 60U;
@@ -2227,6 +2244,7 @@ rrul_fill_Sly(echs_instant_t *restrict tgt, size_t nti, rrulsp_t rr)
 		if (UNLIKELY(echs_instant_lt_p(rr->until, tgt[res]))) {
 			goto fin;
 		}
+		tries = 0UL;
 		res++;
 	}
 fin:
